@@ -379,7 +379,7 @@ fn apply(e: &VectorEngine, w: World, op: &Op, model: &mut Model) -> Result<bool,
 // key). A used engine gets slower (the store's scan cost grows with the number of keys ever deleted), so an engine is
 // retired after MAX_USES histories. Every node on which a violation is seen is re-run on a brand-new engine and only
 // what is observed there is reported.
-const MAX_USES: u32 = 48;
+const MAX_USES: u32 = 24;
 static POOL: std::sync::Mutex<Vec<(VectorEngine, u32)>> = std::sync::Mutex::new(Vec::new());
 struct Lease(Option<(VectorEngine, u32)>);
 fn reset_engine(e: &VectorEngine) -> bool {
@@ -1544,6 +1544,7 @@ fn main() {
             }
         }
         let b = Battery { queries: fq.clone(), apis: f_apis, skip_failed_build: false };
+        let f_depth = if w == World::Default { f_depth } else { 4 };
         let f = explore(&Ctx { part: "F", world: w, battery: &b }, &alpha, f_depth);
         report_part(&mut rep, &format!("F_filter_{}", w.name().replace(':', "_")), &f, json!({"depth": f_depth, "alphabet": alpha.len(), "keys": 4, "queries": fq.len(), "wall_s": lap()}));
         all.merge(f);
@@ -1555,7 +1556,7 @@ fn main() {
     let b = Battery { queries: c_q.clone(), apis: c_apis, skip_failed_build: false };
     let alpha = alphabet_named(&KEYS[..2]);
     for m in [M::Cos, M::Dot, M::Euc] {
-        let depth = if thorough { 5 } else { 4 };
+        let depth = if thorough && m == M::Cos { 5 } else { 4 };
         let c = explore(&Ctx { part: "C", world: World::Named(m), battery: &b }, &alpha, depth);
         report_part(&mut rep, &format!("C_sequences_named_{}", m.name()), &c, json!({"depth": depth, "alphabet": alpha.len(), "keys": 2, "queries": c_q.len(), "wall_s": lap()}));
         if c.builds_ok == 0 || c.weak_checks == 0 {
